@@ -332,10 +332,12 @@ def run_check(prop, prop_id, tier, seed):
                 results.append(r)
 
     errors = [r["error"] for r in results if "error" in r]
-    if errors:
-        for e in errors:
-            print("HARNESS-ERROR:", e, file=sys.stderr)
-        return 2
+    for e in errors:
+        print("HARNESS-ERROR:", e, file=sys.stderr)
+    results = [r for r in results if "error" not in r]
+    if errors and not regressions and not any(r["failures"] for r in results):
+        return 2  # nothing but harness trouble: never a violation
+    # (violations demonstrated by the units that did run are reported even if another unit had harness trouble)
 
     results.sort(key=lambda r: str(r["unit"]))
     evaluations = sum(r["evaluations"] for r in results)
@@ -397,7 +399,7 @@ def run_check(prop, prop_id, tier, seed):
         f"excluded_known={sum(excluded.values())} violations={len(paths)} wall={wall:.1f}s",
         flush=True,
     )
-    return 1 if paths else 0
+    return 1 if paths else (2 if errors else 0)
 
 
 def run_replay(prop, prop_id, path):
